@@ -88,6 +88,9 @@ type World struct {
 	nodes     map[string]*Node
 	installed *State
 	Timeout   time.Duration
+	// NoMemStats switches the allocation measurement off (runtime.ReadMemStats stops the
+	// world, which serialises simulations that run in parallel)
+	NoMemStats bool
 }
 
 func NewWorld(run *vh.Run, mat *Material) *World {
@@ -320,7 +323,9 @@ func (e Exec) Crashed() bool { return e.Panic != "" || e.Timeout }
 func (w *World) guard(f func()) Exec {
 	var ms0, ms1 runtime.MemStats
 	w.Srv.ResetCounters()
-	runtime.ReadMemStats(&ms0)
+	if !w.NoMemStats {
+		runtime.ReadMemStats(&ms0)
+	}
 	done := make(chan string, 1)
 	go func() {
 		defer func() {
@@ -339,8 +344,10 @@ func (w *World) guard(f func()) Exec {
 	case <-time.After(w.Timeout):
 		ex.Timeout = true
 	}
-	runtime.ReadMemStats(&ms1)
-	ex.Alloc = ms1.TotalAlloc - ms0.TotalAlloc
+	if !w.NoMemStats {
+		runtime.ReadMemStats(&ms1)
+		ex.Alloc = ms1.TotalAlloc - ms0.TotalAlloc
+	}
 	ex.Stmts = w.execCount()
 	return ex
 }
